@@ -57,7 +57,8 @@ BASEDIR = "/ctx"
 
 EPILOGUE = [["nreq"], ["replayall"], ["nreq"]]
 
-IO_KINDS = [("mkstemp", "EMFILE"), ("write", "ENOSPC"), ("flush", "ENOSPC"), ("fsync", "EIO"), ("replace", "EIO")]
+IO_KINDS = [("mkstemp", "EMFILE"), ("write", "ENOSPC"), ("flush", "ENOSPC"), ("fsync", "EIO"), ("replace", "EIO"),
+            ("open", "EIO"), ("open", "EMFILE")]
 
 
 # ------------------------------------------------------------------ generation
@@ -352,6 +353,15 @@ class Run:
                     self.anomaly("del-after-failed-load", "%s: %s" % (type(e2).__name__, e2))
                 self.discard(obj)
                 self.N = None
+                self.failed_starts = getattr(self, "failed_starts", 0) + 1
+                if isinstance(e, OSError) and self.failed_starts <= 3:
+                    # the start failed on an I/O error (the half-built object was finalised as the interpreter would);
+                    # the service is started again
+                    self.probe("start_failed_on_io_error_then_restarted")
+                    self.boundaries.append("crash")
+                    self.inc += 1
+                    self.fs.restart()
+                    continue
                 self.ended = True
                 return
             self.in_load = False
